@@ -80,7 +80,7 @@ CHECKS = {
     text="(a) BFS to depth 3 (4) over {to_dict, from_dict, to_jsonb, from_json, to_msgpack, from_msgpack} x {no dialect, D1, D2} x classes of five "
          "families (nested, inherited, generic with two specialisations, mutually referencing, two formats on one class) x {eager, lazy, postponed} x "
          "dialect support on/off; oracle = same call on a fresh eager twin; RecursionError/AttributeError count as violations. (b) 13 thread harnesses "
-         "(first calls racing on one fresh family): every interleaving with <= 1 preemption (<= 2 in thorough, 3 on one harness) is executed; every "
+         "(first calls racing on one fresh family): every interleaving with <= 1 preemption (<= 2 in thorough for two threads) is executed; every "
          "thread's outcome and a sequential call afterwards must equal the twin's.",
     note="atomic step = one line of generated code or the stretch between traced library calls; interleavings inside a step and other interpreters are not covered"),
  "C12": dict(engine="E2 histories", design_ref="6/C12, 5.2",
